@@ -14,6 +14,7 @@ RowCloud == LET p == R.p IN
     /\ R.prefix = 1 /\ Sz(R.secret) > Sz(R.cloud)                            \* strict prefix of the secret key set export
     /\ R.tail = (4 + 4 * p.n) + (4 + 4 * p.kk * p.N)                         \* the secret export adds exactly the two secret key sections
     /\ R.occ_lwe = 0 /\ R.occ_lwe8 = 0 /\ R.occ_lwep = 0 /\ R.occ_ring = 0   \* no secret key material in any encoding
+    /\ R.unmasked = 0                                                       \* every row carrying key material is masked (an unmasked row is the key in clear)
     /\ R.occ_ctl >= 1                                                        \* (the search does find the key inside the secret export)
     /\ R.imp_pos_ok = 1 /\ R.imp_has_bk = 1                                  \* importing needs nothing beyond the cloud bytes
 RowOK == CASE R.e = "Cloud" -> RowCloud [] OTHER -> FALSE
